@@ -252,7 +252,7 @@ static bool settled(std::vector<vtp::Worker*>& ws, std::vector<Prog>& pg, std::v
     return o1 == o2 && b1 == blocked;
 }
 static bool wait_settle(std::vector<vtp::Worker*>& ws, std::vector<Prog>& pg, std::vector<int>& blocked, const char* what) {
-    for (int spins = 0; spins < 20000; spins++) {
+    for (int spins = 0; spins < 120000; spins++) {      // generous: the machine may be heavily shared
         bool all = true;
         for (auto w : ws) if (!w->done.load()) { all = false; break; }
         if (all) { blocked.clear(); return true; }
@@ -616,7 +616,7 @@ int main(int argc, char** argv) {
         _exit(0);
     }
     g_vc.start(g_vcpus);
-    vtp::Watchdog wd; wd.start(30, prim.c_str());
+    vtp::Watchdog wd; wd.start(120, prim.c_str());
     auto scs = scenarios();
     for (int ex = 0; ex < g_execs; ex++) {
         bool ok = prim == "dir" ? exec_dir(ex, scs[ex % scs.size()]) : exec_conc(ex, r);
